@@ -46,6 +46,11 @@ def run(check: Check, repo: Repo, tier: str) -> None:
     V.limit(check, repo)
     V.report_discipline(check, repo, vmods)
     V.nested_visit_neutral(check, repo, classes)
+    # 'unchanged by changing ignored characters': the lexer's notion of what is ignored (shared with C09)
+    from rules import language_rules as L9
+
+    L9.lex_tables(check, repo)
+    L9.lexer_break_conditions(check, repo)
     from rules import type_witness as TW
 
     TW.type_witness(check, repo, [m for m in vmods if ".custom" not in m.name])
